@@ -111,6 +111,8 @@ impl<const LIMBS: usize> Uint<LIMBS> {
                 .overflowing_shl_vartime(shift - Self::BITS)
                 .expect("shift within range");
             ConstCtOption::some((Self::ZERO, upper))
+        } else if shift == 0 {
+            ConstCtOption::some((lower, upper))
         } else {
             let new_lower = lower
                 .overflowing_shl_vartime(shift)
